@@ -53,53 +53,61 @@ def check(repo: Repo, run: Run) -> None:
     if len(loops) != 1:
         return
     lp = loops[0]
+    from .. import streams
     reads = [c for c in rec.calls if c.func == T("attr", (reader, "read"))]
     in_loop = [c for c in reads if lp.id in c.loops]
-    ok = len(in_loop) == 1 and in_loop[0].args == (const(ks),) and not in_loop[0].pc[len(_loop_pc(rec, lp)):] \
-        and len(reads) == len(in_loop)
+    outside = [c for c in reads if lp.id not in c.loops]
+    # a priming read right before a `while buf:` loop is part of the same read-per-iteration scheme
+    lp_test = sym.resolve_widens(rec, lp.test) if lp.test is not None else None
+    priming_ok = all(c.args == (const(ks),) and not c.loops and c.seq < lp.body_seq[0] for c in outside) and len(outside) <= 1 \
+        and (not outside or (lp.kind == "while" and lp_test is not None
+                             and streams.raw_valued(render.norm_bool(lp_test)[0], raw)))
+    loop_pc = _loop_pc(rec, lp)
+    ok = len(in_loop) == 1 and in_loop[0].args == (const(ks),) and priming_ok \
+        and not [c for c in in_loop[0].pc[len(loop_pc):] if c not in streams.loop_test_conditions(rec, [lp.id])]
     run.ob("R1", MOD, "KdBufParser.parse_v2", "exactly one read(KEVENT_SIZE) per iteration, none elsewhere", ok,
            "" if ok else f"the record loop reads {[sym.pretty(c.args[0]) if c.args else '?' for c in in_loop]} per iteration and "
-                         f"{len(reads) - len(in_loop)} read(s) happen outside it: records are skipped, split or misaligned",
+                         f"{len(outside)} other read(s) happen outside it: records are skipped, split or misaligned",
            facts={"reads": [(c.lineno, sym.pretty(c.args[0]) if c.args else None) for c in reads]}, line=lp.lineno)
     seeks = [c for c in rec.calls if c.func.op == "attr" and c.func.a[0] == reader and c.func.a[1] not in ("read",)]
     run.ob("R1", MOD, "KdBufParser.parse_v2", "no seek / other stream operation", not seeks,
            f"parse_v2 also calls reader.{[c.func.a[1] for c in seeks]}", nontrivial=False)
-    # exits
-    exits = lp.exits
-    good_exit = []
-    bad_exit = []
-    for kind, pc, seq, lineno in exits:
-        inner = pc[len(_loop_pc(rec, lp)):]
-        if kind == "break" and len(inner) == 1:
-            atom, apol = render.norm_bool(inner[0][0])
-            eff = inner[0][1] if apol else not inner[0][1]
-            is_empty = (atom == raw and eff is False) or \
-                       (atom == T("cmp", ("==", raw, const(b""))) and eff is True) or \
-                       (atom == T("cmp", ("==", T("call", (T("builtin", ("len",)), (raw,), ())), const(0))) and eff is True)
-            if is_empty:
-                good_exit.append(lineno)
-                continue
-        bad_exit.append((kind, lineno, [sym.pretty(c)[:50] for c, _ in inner]))
-    ok = len(good_exit) >= 1 and not bad_exit
-    run.ob("R1", MOD, "KdBufParser.parse_v2", "the only loop exit is break on an empty read", ok,
-           "" if ok else f"loop exits: {bad_exit or 'none on empty read'}: a record is dropped, the loop ends early or never ends",
-           facts={"exits": [(k, l) for k, _, _, l in exits]}, line=lp.lineno)
+    # exits: the loop is left exactly when the read is empty (break on an empty read, or `while <raw read>`)
+    test_conds = streams.loop_test_conditions(rec, [lp.id])
+    good_exit, bad_exit = [], []
+    for kind, pc, seq, lineno in lp.exits:
+        inner = [c for c in pc[len(loop_pc):] if c not in test_conds]
+        if kind == "break" and len(inner) == 1 and streams.empty_test(inner[0][0], inner[0][1], reader) == raw:
+            good_exit.append(lineno)
+        else:
+            bad_exit.append((kind, lineno, [sym.pretty(c)[:50] for c, _ in inner]))
+    test_exit = lp.kind == "while" and lp_test is not None and render.norm_bool(lp_test)[1] \
+        and streams.raw_valued(render.norm_bool(lp_test)[0], raw)
+    trivially_true = lp.kind == "while" and lp.test is not None and sym.truth(lp.test) is True
+    ok = not bad_exit and ((good_exit and trivially_true) or (test_exit and not good_exit) or (test_exit and good_exit))
+    run.ob("R1", MOD, "KdBufParser.parse_v2", "the only loop exit is an empty read", ok,
+           "" if ok else f"loop exits: {bad_exit or 'none on empty read'} (loop test {sym.pretty(lp.test)[:60] if lp.test is not None else None}): "
+                         f"a record is dropped, the loop ends early or never ends",
+           facts={"exits": [(k, l) for k, _, _, l in lp.exits], "test": sym.pretty(lp.test)[:80] if lp.test is not None else None},
+           line=lp.lineno)
     # yields
     yields = [r for r in rec.returns if r.kind in ("yield", "yield_from")]
     kev = repo.function("kevent", "from_kd_buf")
     want = interp.run(repo.module("kevent"), kev, {kev.args.args[0].arg: raw}).return_term()
     opaque = T("call", (T("func", ("pykdebugparser.kevent.from_kd_buf",)), (raw,), ()))
+
+    def as_raw(t):
+        """Replace every raw-valued loop variable by the read call it stands for."""
+        m = {x: raw for x in sym.walk(t) if x.op == "widen" and streams.raw_valued(sym.final_widen(rec, x), raw)}
+        return sym.subst(t, m)
     ok = len(yields) == 1 and yields[0].kind == "yield" and lp.id in yields[0].loops \
-        and (sym.canon(yields[0].value) == sym.canon(want) or yields[0].value == opaque)
+        and (sym.canon(as_raw(yields[0].value)) == sym.canon(want) or as_raw(yields[0].value) == opaque)
     run.ob("R1", MOD, "KdBufParser.parse_v2", "exactly one yield: from_kd_buf(<the raw read>)", ok,
            "" if ok else f"parse_v2 has {len(yields)} yield(s) or does not yield from_kd_buf of the unmodified 64 bytes read in "
                          f"that iteration", line=fn.lineno)
     if len(yields) == 1:
-        inner = yields[0].pc[len(_loop_pc(rec, lp)):]
-        # the only condition allowed on the yield is 'the read was not empty'
-        okc = all(render.norm_bool(c)[0] in (raw, T("cmp", ("==", raw, const(b""))),
-                                             T("cmp", ("==", T("call", (T("builtin", ("len",)), (raw,), ())), const(0))))
-                  for c, _ in inner)
+        inner = [c for c in yields[0].pc[len(loop_pc):] if c not in test_conds]
+        okc = all(streams.empty_test(c, p_, reader) == raw or streams.nonempty_test(c, p_, reader) == raw for c, p_ in inner)
         run.ob("R1", MOD, "KdBufParser.parse_v2", "every non-empty read is yielded", okc,
                "" if okc else f"the yield also depends on {[sym.pretty(c)[:60] for c, _ in inner]}: some complete records are "
                               f"not reported", line=yields[0].lineno,
